@@ -71,10 +71,24 @@ def gen_case(seed, tier='quick', max_geos=None, degenerate=False):
     par['volume_ratio_tolerance'] = rng.choice([0.5, 1.0, 2.0, 4.0, 0.2])
   if rng.random() < 0.3 and n >= 2:
     par['n_geos_max'] = rng.randint(2, max(2, n))
-  return {'seed': seed, 'rows': rows, 'n_dates': nd, 'elig': None if use_default_elig else elig, 'par': par,
+  case = {'seed': seed, 'rows': rows, 'n_dates': nd, 'elig': None if use_default_elig else elig, 'par': par,
           'want_share': rng.random() < p, 'want_budget': rng.random() < p,
           'u': [rng.random() for _ in range(4)], 'shuffle': rng.random() < 0.3, 'int_ids': rng.random() < 0.2,
           'degenerate': degenerate}
+  # choices added later draw from their own generator, so that earlier seeds keep their cases
+  r2 = random.Random(seed * 7919 + 13)
+  v = r2.random()
+  # what happened to the TBRMatchedMarkets object (and its data object) before the search under test
+  case['history'] = (None if v < 0.6 else 'prior-search' if v < 0.7 else 'other-params-first' if v < 0.85 else 'second-matcher')
+  if degenerate and n >= 2 and r2.random() < 0.2:
+    # a geo whose response is a net change: it oscillates and sums to exactly zero (share 0.0)
+    g = r2.randrange(n)
+    a = float(r2.choice([1, 2, 5, 9]))
+    row = [a * (1 + (t // 2) % 3) * (1 if t % 2 == 0 else -1) for t in range(nd - nd % 2)] + ([0.0] if nd % 2 else [])
+    case['rows'][g] = row
+    case['zero_sum_geo'] = g
+    par.setdefault('volume_ratio_tolerance', r2.choice([0.5, 1.0, 4.0]))
+  return case
 
 
 def frame_of(case):
@@ -147,6 +161,54 @@ def build(case):
   par = P.TBRMMDesignParameters(**{k: (tuple(v) if isinstance(v, list) else v) for k, v in finish_params(case).items()})
   data = tbrmmdata.TBRMMData(frame_of(case), 'response', elig_of(case))
   return MM.TBRMatchedMarkets(data, par), par
+
+
+def apply_history(mm, case, name):
+  """What the object went through before the search under test (case['history']); none of it may
+  change the answer of that search.  Exceptions of the earlier calls are not this search's business."""
+  import copy
+  from matched_markets.methodology import tbrmmdesignparameters as P, tbrmatchedmarkets as MM
+  kind = case.get('history')
+  if not kind:
+    return
+  def quiet(f):
+    try:
+      return f()
+    except Exception:
+      return None
+  if kind == 'prior-search':
+    quiet(mm.greedy_search if name == 'exhaustive' else mm.exhaustive_search)
+    quiet(mm.exhaustive_search if name == 'exhaustive' else mm.greedy_search)
+    quiet(mm.search_results)
+  elif kind == 'other-params-first':
+    # an earlier search on the same object with a tight budget and another n_designs, parameters restored afterwards
+    saved = {k: copy.deepcopy(getattr(mm.parameters, k)) for k in ('budget_range', 'n_designs', 'treatment_share_range')}
+    imp = sorted(float(v) for v in mm.geo_req_impact.values if v == v)
+    if imp:
+      hi = imp[len(imp) // 2] / float(mm.parameters.iroas)
+      mm.parameters.budget_range = (hi * 1e-3, hi)
+    mm.parameters.n_designs = 2
+    mm.parameters.treatment_share_range = None
+    quiet(mm.exhaustive_search)
+    quiet(mm.greedy_search)
+    for k, v in saved.items():
+      setattr(mm.parameters, k, v)
+  elif kind == 'second-matcher':
+    # another analysis of the same data object, admitting other geos, used in between
+    quiet(mm.count_max_designs)
+    par2 = dict(case['par_final'])
+    shares = sorted(float(v) for v in mm.data.geo_share.values)
+    if len(shares) >= 3 and shares[-1] > shares[-2] > 0:
+      par2['treatment_share_range'] = (0.0, (shares[-1] + shares[-2]) / 2)     # drops the largest geo if it may be dropped
+    else:
+      par2['n_geos_max'] = 2
+    par2['n_pretest_max'] = case['par_final'].get('n_pretest_max', 90)          # the same window: data.df is truncated in place
+    def other():
+      p2 = P.TBRMMDesignParameters(**{k: (tuple(v) if isinstance(v, list) else v) for k, v in par2.items()})
+      mm2 = MM.TBRMatchedMarkets(mm.data, p2)
+      mm2.count_max_designs()
+      mm2.geo_assignments
+    quiet(other)
 
 
 def exc_kind(e):
@@ -321,6 +383,7 @@ def run_search(case, name, geos):
   """One search on a fresh object. Returns {'outcome': 'ok'|'ValueError'|'other:..', 'designs': [...]}."""
   try:
     mm, par = build(case)
+    apply_history(mm, case, name)
     res = mm.exhaustive_search() if name == 'exhaustive' else mm.greedy_search()
     gi = list(mm.data.geo_index) if mm.data.geo_index is not None else []
     return {'outcome': 'ok', 'designs': [design_record(d, geos, gi) for d in res],
